@@ -491,6 +491,31 @@ func (e *env) checkProof(t *rmt.RegularMerkleTree, cur [][]byte, q query, negati
 			}
 		}
 	}
+	// --- a forged leaf claimed together with its genuine parent node: the index list of a proof may
+	// name inner nodes too; a claim (leaf index, other data) next to (parent index, real parent hash)
+	// must not verify - the leaf claim contradicts the parent it hangs under
+	if len(q.pos) == 1 && q.pos[0] >= 0 && q.pos[0]^1 < n && len(proof.SiblingHashes) > 0 && len(proof.Idxs) == 1 &&
+		bytes.Equal(proof.SiblingHashes[0], ref31.LeafHash(cur[q.pos[0]^1])) {
+		pos := q.pos[0]
+		parent := ref31.BranchHash(ref31.LeafHash(cur[pos&^1]), ref31.LeafHash(cur[pos|1]))
+		forgedLeaf := ref31.LeafHash(append(cp(cur[pos]), 0x02))
+		for vi, sib := range [][][]byte{proof.SiblingHashes[1:], proof.SiblingHashes} {
+			for oi, order := range [][2]int{{0, 1}, {1, 0}} {
+				idxs := []uint64{proof.Idxs[0], proof.Idxs[0] >> 1}
+				hs := [][]byte{forgedLeaf, parent}
+				pc := &rmt.Proof{Size: proof.Size, Idxs: []uint64{idxs[order[0]], idxs[order[1]]}, SiblingHashes: cpAll(sib)}
+				k.Count("neg_forged_leaf_under_genuine_parent", 1)
+				ok, pn := verify([][]byte{hs[order[0]], hs[order[1]]}, pc, root)
+				if pn {
+					k.Count("neg_forged_leaf_under_genuine_parent_panic(not a C11 verdict)", 1)
+				} else if ok {
+					e.viol("proof:accepts-other-leaf:claimed-next-to-its-genuine-parent", "VerifyProof accepts a proof for leaf data that is not at that position (the proof also names the leaf's real parent node)", map[string]any{"position": pos, "sibling_hash_kept": vi == 1, "order": oi})
+				} else {
+					k.Count("neg_forged_leaf_under_genuine_parent_rejected", 1)
+				}
+			}
+		}
+	}
 	// --- other root
 	roots := [][]byte{ref31.EmptyHash, ref31.Root(cur[:n-1]), root[:31], append(cp(root), 0)}
 	fl := cp(root)
